@@ -56,29 +56,29 @@ var osTable = map[string]map[string]string{
 		"Hostname": "Hostname", "Getpid": "Getpid", "Getppid": "Getppid", "Getuid": "Getuid", "Geteuid": "Geteuid",
 		"Getgid": "Getgid", "UserHomeDir": "UserHomeDir", "TempDir": "TempDir", "Executable": "Executable",
 		"Exit": "Exit", "Stdin": "Stdin", "Stdout": "Stdout", "Stderr": "Stderr", "File": "File",
+		"Symlink": "Symlink", "Link": "Link", "Chmod": "Chmod", "Chown": "Chown", "Lchown": "Lchown", "Chtimes": "Chtimes",
+		"Truncate": "Truncate", "CreateTemp": "CreateTemp", "MkdirTemp": "MkdirTemp", "SameFile": "SameFile",
+		"Setenv": "Setenv", "Unsetenv": "Unsetenv", "Clearenv": "Clearenv", "UserCacheDir": "UserCacheDir", "UserConfigDir": "UserConfigDir",
 	},
 	"path/filepath": {
-		"EvalSymlinks": "FilepathEvalSymlinks", "Abs": "FilepathAbs", "Glob": "FilepathGlob", "Walk": "FilepathWalk",
+		"EvalSymlinks": "FilepathEvalSymlinks", "Abs": "FilepathAbs", "Glob": "FilepathGlob", "Walk": "FilepathWalk", "WalkDir": "FilepathWalkDir",
 	},
 	"time": {
 		"Now": "TimeNow", "Since": "TimeSince", "Until": "TimeUntil", "Sleep": "TimeSleep", "After": "TimeAfter",
 	},
 	"io/ioutil": {
-		"ReadFile": "ReadFile", "WriteFile": "WriteFile",
+		"ReadFile": "ReadFile", "WriteFile": "WriteFile", "ReadDir": "IoutilReadDir", "TempDir": "IoutilTempDir", "TempFile": "IoutilTempFile",
 	},
 }
 
 // selectors that have effects or read ambient state but are not modelled
 var unmodelled = map[string]map[string]bool{
 	"os": {
-		"Symlink": true, "Link": true, "Chmod": true, "Chown": true, "Lchown": true, "Chtimes": true, "CreateTemp": true,
-		"MkdirTemp": true, "Pipe": true, "StartProcess": true, "Truncate": true, "DirFS": true, "NewFile": true,
-		"Setenv": true, "Unsetenv": true, "Clearenv": true, "SameFile": true, "FindProcess": true, "UserCacheDir": true,
-		"UserConfigDir": true, "Getgroups": true, "CopyFS": true,
+		"Pipe": true, "StartProcess": true, "DirFS": true, "NewFile": true, "FindProcess": true, "Getgroups": true, "CopyFS": true,
 	},
-	"path/filepath": {"WalkDir": true},
+	"path/filepath": {},
 	"time":          {"NewTimer": true, "NewTicker": true, "Tick": true, "AfterFunc": true},
-	"io/ioutil":     {"ReadDir": true, "TempDir": true, "TempFile": true},
+	"io/ioutil":     {},
 	"os/exec":       {"Command": true, "CommandContext": true, "LookPath": true},
 	"net":           {"Dial": true, "Listen": true, "DialTimeout": true, "LookupHost": true},
 }
